@@ -42,6 +42,22 @@ CHECKS = {
     text="the real tap binary is run for every (n, index) with n up to 24 (quick) / 64 (thorough) plus large n, three script-content patterns, three internal keys and all address prefixes; the printed address, control block and script are verified under BIP341 by an independent pure-Python reference and by the real btcdeb commitment check, the reported sighash is compared with the reference BIP341/342 digest, and signatures made over it are passed back with --sig and validated end to end",
     note="trusted: drivers/pyref.py (self-tested on BIP340/341/350 vectors and the real-chain taproot spends before every run); single-input spends, hash type 0x00",
     tech="exhaustive enumeration of (key, script list, n, index) against the real binary with an independent reference verifier"),
+ "C02": dict(engine="mc_sig", cat=MC, design="DESIGN.md §3 C02",
+    text="products of small explicit alphabets executed step by step on the real Instance against the reference interpreter whose signature checker is the independent digest + EC implementation: all 256 hash-type bytes x transaction shapes x input index x {BASE, WITNESS_V0} (ECDSA, explicit mode) and x {key path, script path} x annex x outputs (Schnorr, auto mode); 20 ECDSA and 13 tapscript script templates (code separators, multisig orders, FindAndDelete, CHECKSIGADD); encoding classes x all 2^8 encoding-flag subsets; validation-weight boundaries; every single-bit flip of signature, public key and serialised transaction",
+    note="trusted: reftx/refec (self-tested on BIP340 vectors and six real-chain spends); keys and fillers are fixed constants of the data alphabet; taproot limited to single-input spends",
+    tech="exhaustive enumeration of a product of finite alphabets, each session explored step by step against a reference model"),
+ "C07": dict(engine="c07_btcc", cat=MC, design="DESIGN.md §3 C07",
+    text="the real btcc binary is run on every token sequence of a grammar-directed finite space (every opcode name in both spellings, all 256 OP_xNN escapes, boundary decimals, all 1-byte and (thorough) all 2-byte hex literals in 0x and bare form, boundary lengths to 520, nesting depth 0..8, all ordered pairs and triples over a 12-token set, whitespace/comment variants); the output is compared with a reference assembler implementing the statement and decoded to check the operation sequence and the minimal-push rule",
+    note="trusted: drivers/pyref_codec.py (self-tested against BIP vectors and mc_refcli); tokens falling through to the string class are outside the grammar",
+    tech="exhaustive enumeration of a bounded token grammar against the real binary with a reference assembler"),
+ "C11": dict(engine="mc_sig", cat=MC, design="DESIGN.md §3 C11",
+    text="every ordered list of 1..3 mock pairs over {s1,s2} x {p1,p2} (duplicates, one signature for two keys, one key with two signatures) is installed through the real parse_pretend_valid_expr and every listed pair, every unlisted signature for a mocked key, and scripts signed by unlisted keys are executed in CHECKSIG / CHECKSIGVERIFY / CHECKMULTISIG under BASE and WITNESS_V0, with and without a transaction, against the reference interpreter extended with the mock-pair rule; malformed list spellings must be rejected",
+    note="metamorphic + reference oracle; tapscript/CHECKSIGADD with mock pairs is not reachable in explicit mode and is not covered",
+    tech="exhaustive enumeration of pair lists x script templates with a reference-model oracle"),
+ "C14": dict(engine="c14_tf", cat=MC, design="DESIGN.md §3 C14",
+    text="every transform of the tf table is evaluated in every form that exists for it (REPL command, inline name(arg) through btcc, script opcode through batch btcdeb) on byte strings of every length 0..300 (quick 0..140 + boundaries) with several fillers, every single-character corruption of encoded base58check/bech32/bech32m strings, boundary integers, operand pairs for add/sub with and without modulus, Jacobi symbols, address conversions; results are compared with hashlib and independently written codecs and the forms are compared with each other",
+    note="trusted: drivers/pyref_codec.py; argument conventions the tool itself rejects are recorded as observations (listed in the evidence)",
+    tech="exhaustive enumeration of (transform, argument, form) over bounded argument alphabets with an independent oracle"),
 }
 
 REASON_PENDING = "check under construction in this round; not claimed until its engine has run end-to-end"
